@@ -4,6 +4,7 @@ import EgVerif.Gen.FactsC06JwtIR
 import EgVerif.Gen.FactsC06HandleIR
 import EgVerif.Gen.FactsC06HdrIR
 import EgVerif.Gen.FactsC06OAuthIR
+import EgVerif.Gen.FactsC06ReloadIR
 /-!
 Regenerated tie by translation for C06, validator package (`notes/IR.md`, `notes/C06.md` "Extension auth"):
 `Gen.FactsC06IR` / `FactsC06JwtIR` / `FactsC06HandleIR` / `FactsC06HdrIR` (one module per Go source file) are produced on every run by the go/ast micro-translator from the current bodies of
@@ -17,7 +18,7 @@ namespace EgVerif.Validator
 open EgVerif.Sha256 (Bytes)
 open EgVerif.Signer
 open EgVerif.Gen.FactsC06IR EgVerif.Gen.FactsC06JwtIR EgVerif.Gen.FactsC06HandleIR EgVerif.Gen.FactsC06HdrIR
-open EgVerif.Gen.FactsC06OAuthIR
+open EgVerif.Gen.FactsC06OAuthIR EgVerif.Gen.FactsC06ReloadIR
 
 theorem parseCredentials_regenerated_from_source (creds : Bytes) : parseCredentialsIR creds = parseCreds creds := by
   unfold parseCredentialsIR parseCreds splitN2
@@ -195,5 +196,12 @@ theorem oauthValidate_accepts_iff (cfg : JwtCfg) (lib : JwtLib) (cs : Bytes → 
   cases stripPrefix (b "Bearer ") (hget h authHeader) with
   | none => rfl
   | some t => by_cases hp : jwtParse lib t (jwtKeyFunc cfg) = true <;> simp [hp]
+
+/-- `Validator.reload`: exactly the configured components are constructed, each by its constructor (fresh) -/
+theorem validatorReload_regenerated_from_source (hd jw sg oa ba : Bool) : validatorReloadIR hd jw sg oa ba = (hd, jw, sg, oa, ba) := by
+  cases hd <;> cases jw <;> cases sg <;> cases oa <;> cases ba <;> rfl
+
+/-- `Init` and `Inherit` both just call `reload()`; `Inherit` does not mention the previous generation -/
+theorem validatorInherit_regenerated_from_source : validatorInitIR () = true ∧ validatorInheritIR () = true := ⟨rfl, rfl⟩
 
 end EgVerif.Validator
